@@ -79,16 +79,18 @@ CLAIMS = {
         note=ASSUME + "Soundness outside the catalogue is not decided. Found and repaired with it: `**/{a}` family (89e1cfe); known: optional repetitions (`<*/>`, pinned by an existing test).",
         ref="4 C09"),
     "C10": dict(
-        technique="static analysis: THIR case-table evaluation against a model-derived reference (termination algebra, finalisation, leaf terms, fold operators, variance shapes)",
-        text="Decides the finite algebra the depth analysis is composed from: 25-cell termination table vs a reference "
+        technique="static analysis: reported depth variance (THIR evaluation of the whole fold) vs. component counts of the language of the emitted program (automaton) on an expression catalogue; THIR case-table evaluation against a model-derived reference (termination algebra, finalisation, leaf terms, fold operators, variance shapes)",
+        text="On every buildable catalogue expression the reported depth variance contains the number of components of every canonical path the emitted program matches (catalogue shapes only). "
+             "Decides the finite algebra the depth analysis is composed from: 25-cell termination table vs a reference "
              "computed from an edge model, finalisation as containment, depth terms of all leaf kinds, the nine VarianceFold "
              "impls and the BranchKind dispatcher (exact trait selection through rustc's monomorphic resolution), result "
              "shapes of conjunction/disjunction.",
-        note=ASSUME + "Not decided: arithmetic over natural ranges, hence the containment law itself.",
+        note=ASSUME + "Known: lower bound one too high with a tree wildcard inside a branch (`**/x/{a/**}`). Not decided: arithmetic over natural ranges, hence the containment law itself.",
         ref="4 C10"),
     "C12": dict(
-        technique="static analysis: THIR case-tables (rooting predicate, fold operators, sequencers) + emission table (initial rooting leaves inside SEP.Sigma*)",
-        text="Decides: rooting leaves = {separator, rooted tree wildcard}; has_root folds with or/certainty and weakens "
+        technique="static analysis: has_root verdict vs. the language of the emitted program on an expression catalogue; THIR case-tables (rooting predicate, fold operators, sequencers) + emission table (initial rooting leaves inside SEP.Sigma*)",
+        text="On every buildable catalogue expression, has_root = always implies every matched path begins with a separator, and no expression reports `sometimes` (catalogue shapes only). "
+             "Decides: rooting leaves = {separator, rooted tree wildcard}; has_root folds with or/certainty and weakens "
              "optional repetitions; Starting selects first / all children; every rooting leaf emitted at an initial position "
              "only matches text beginning with a separator; semantic literal iff text is `.` or `..`; "
              "has_semantic_literals = any over literals().",
@@ -104,8 +106,9 @@ CLAIMS = {
         note=ASSUME + "Not decided: completeness of the rule set; the group_by pipeline of `boundary()`.",
         ref="4 C06"),
     "C11": dict(
-        technique="static analysis: THIR case-table evaluation (text terms of all leaf kinds, conjunction order, disjunction shapes, conversion)",
-        text="Decides the finite parts of the text variance: leaf terms (literal x flag x casing, class archetype shapes, "
+        technique="static analysis: reported invariant text vs. the language of the emitted program on an expression catalogue; THIR case-table evaluation (text terms of all leaf kinds, conjunction order, disjunction shapes, conversion)",
+        text="On every buildable catalogue expression that reports invariant text, the emitted program matches exactly that text (catalogue shapes only). "
+             "Decides the finite parts of the text variance: leaf terms (literal x flag x casing, class archetype shapes, "
              "separator, wildcards), left-then-right concatenation and repetition of fragments, disjunction of invariants "
              "invariant only when equal, TextVariance::from. The law `invariant text is the only match` itself is not computed.",
         note=ASSUME + "Unix: PATHS_ARE_CASE_INSENSITIVE = false. Not decided: case-folded equality; classes listing a separator.",
@@ -159,13 +162,14 @@ CLAIMS = {
         note=ASSUME + "Soundness of the verdict outside the catalogue is not decided; known: optional repetitions.",
         ref="4 C03"),
     "C08": dict(
-        technique="static analysis: THIR evaluation of Tokenized::partition on abstract token lists with concrete byte spans + table of invariant_text_prefix",
-        text="NARROW: the equivalence over all paths, idempotence and rebuild-equivalence are not decided. Decided: the postfix "
+        technique="static analysis: languages of glob, prefix and postfix compared as automata on an expression catalogue (Tokenized::partition evaluated from its THIR); THIR evaluation of Tokenized::partition on abstract token lists with concrete byte spans + table of invariant_text_prefix",
+        text="On every buildable catalogue expression: a canonical path matches the glob exactly when it is prefix + separator + a path the postfix matches; no postfix => the glob matches exactly the prefix; the postfix is unrooted; partitioning is idempotent (catalogue shapes only). "
+             "For all inputs: the postfix "
              "is recompiled from the partitioned tree; for every prefix length on scenarios incl. multi-byte and rooted tree "
              "wildcards, bytes removed from the expression = amount subtracted from every remaining span (each span still "
              "delimits its token's text), the first remaining token is unrooted, the prefix text is invariant_text_prefix's; "
              "invariant_text_prefix over all invariance/boundary patterns up to length 3 (4).",
-        note=ASSUME + "The central behavioural law is NOT decided. Known gap not visible here: globs rooted through a repetition keep their root.",
+        note=ASSUME + "The law outside the catalogue and the displayed postfix expression behind flags are not decided. Known: globs rooted through a repetition keep their root (`</a:1,>`).",
         ref="4 C08"),
     "C14": dict(
         technique="static analysis: THIR evaluation of join_and_get_depth and split_at_depth on abstract paths (component sequences) over a base x prefix x depth table + sibling agreement of the helpers' arguments",
